@@ -499,10 +499,6 @@ theorem formNullStored_witness :
     (match specFormProps fields [] props with | some o => satReqB false s (.obj o) | none => false) = true ∧
     visit false s (.obj (decodeFormProps fields [] props)) = false := by decide
 
-/-- the object a client means when it gives `val k` for the declared properties (in declaration order) -/
-def objOf (val : Str → Option V) (props : List (Str × RS)) : List (Str × V) :=
-  props.filterMap fun kp => (val kp.1).map fun v => (kp.1, v)
-
 /-- **C06(d), round trip (spec side).** For every flat object of primitives and non-empty primitive arrays
 written under the per-property encodings (exploded, or joined with the style's delimiter when no item text
 contains it), the fields written encode exactly that object: decimal integers, `n.5` numbers, booleans
